@@ -497,3 +497,18 @@ pub(crate) fn eliminated_definitions_of(
         })
         .collect()
 }
+
+/// `dump_with_eliminated` and the printed LIR of the same lowering: the
+/// clone / drop calls of every LIR block can then be compared with the
+/// ownership events of the MIR block of the same label.
+#[allow(clippy::type_complexity)]
+pub fn dump_with_eliminated_and_lir(
+    tree: FileTree,
+    rt: &Runtime<NoCtx>,
+) -> Result<
+    (Vec<ItemDump>, Vec<(String, Vec<(String, String)>)>, String),
+    RotoReport,
+> {
+    let checked = tree.parse()?.typecheck(rt)?;
+    Ok(checked.verif_c03_dump_with_eliminated_and_lir())
+}
